@@ -7,6 +7,7 @@ import (
 	"context"
 	"fmt"
 	"testing"
+	"time"
 
 	"github.com/kubewharf/apiserver-runtime/pkg/registry"
 	"github.com/kubewharf/apiserver-runtime/pkg/scheme"
@@ -112,6 +113,20 @@ func genMap(t *rapid.T, label string) map[string]string {
 }
 
 func genMeta(t *rapid.T, label, name string) metav1.ObjectMeta {
+	m := genLiveMeta(t, label, name)
+	if rapid.IntRange(0, 3).Draw(t, label+".pendingDeletion") == 0 {
+		// the stored object is pending deletion (DELETE was called, finalizers remain): it can still be updated
+		ts := metav1.NewTime(time.Unix(1700000000, 0))
+		zero := int64(0)
+		m.DeletionTimestamp, m.DeletionGracePeriodSeconds = &ts, &zero
+		if len(m.Finalizers) == 0 {
+			m.Finalizers = []string{"f1"}
+		}
+	}
+	return m
+}
+
+func genLiveMeta(t *rapid.T, label, name string) metav1.ObjectMeta {
 	return metav1.ObjectMeta{
 		Name:            name,
 		UID:             types.UID("uid-1"),
@@ -253,7 +268,12 @@ func applyMetaPlan(t *rapid.T, m *metav1.ObjectMeta, p diffPlan) {
 		m.Generation = int64(rapid.IntRange(0, 99).Draw(t, "submitted.generation"))
 	}
 	if p.otherMeta {
-		m.Finalizers = nilIfEmpty(rapid.SliceOfN(rapid.SampledFrom([]string{"f1", "f2", "f3"}), 0, 2).Draw(t, "submitted.finalizers"))
+		if m.DeletionTimestamp != nil {
+			// no finalizer can be added to an object that is being deleted: the submitted list is a prefix of the stored one
+			m.Finalizers = nilIfEmpty(m.Finalizers[:rapid.IntRange(0, len(m.Finalizers)).Draw(t, "submitted.finalizersKept")])
+		} else {
+			m.Finalizers = nilIfEmpty(rapid.SliceOfN(rapid.SampledFrom([]string{"f1", "f2", "f3"}), 0, 2).Draw(t, "submitted.finalizers"))
+		}
 		m.OwnerReferences = []metav1.OwnerReference{{APIVersion: "v1", Kind: "ConfigMap", Name: "o", UID: "u"}}
 	}
 }
@@ -268,7 +288,7 @@ func nilIfEmpty(s []string) []string {
 func eq(a, b interface{}) bool { return apiequality.Semantic.DeepEqual(a, b) }
 
 func TestPropUpdateConventions(t *testing.T) {
-	sub := stats.NewSub("update-conventions", "rapid: pair (stored, submitted) of UpstreamCluster / RateLimitCondition with any subset of {labels, annotations, spec, status, generation, other metadata} re-drawn for the submitted object (including 'nothing differs'); main update through rest.BeforeUpdate with the registered strategy and status update with the registered status strategy; oracle: status update leaves spec+labels = stored, main update leaves status = stored (kinds with a status subresource), generation' = stored+1 iff spec or annotations differ (Semantic.DeepEqual) else stored; non-trivial = pair differs in >=1 part but not in spec/annotations, or differs in spec/annotations and in another part too; distinct by FNV-64 of (kind, stored, submitted)")
+	sub := stats.NewSub("update-conventions", "rapid: pair (stored, submitted) of UpstreamCluster / RateLimitCondition (one stored object in four is pending deletion: deletionTimestamp set, finalizers remaining) with any subset of {labels, annotations, spec, status, generation, other metadata} re-drawn for the submitted object (including 'nothing differs'); main update through rest.BeforeUpdate with the registered strategy and status update with the registered status strategy; oracle: status update leaves spec+labels = stored, main update leaves status = stored (kinds with a status subresource), generation' = stored+1 iff spec or annotations differ (Semantic.DeepEqual) else stored; non-trivial = pair differs in >=1 part but not in spec/annotations, or differs in spec/annotations and in another part too; distinct by FNV-64 of (kind, stored, submitted)")
 	ks := kinds()
 	stats.Check(t, stats.N(30000, 400000), func(t *rapid.T) {
 		k := ks[rapid.IntRange(0, len(ks)-1).Draw(t, "kind")]
